@@ -150,6 +150,11 @@ func callArgs(m reflect.Value, k, v int, self reflect.Value, ct *ctype) []reflec
 
 // populate inserts n distinct elements through the type's own public insert method.
 func populate(self reflect.Value, ct *ctype, n int) {
+	populateKeys(self, ct, n, func(i int) int { return i })
+}
+
+// populateKeys inserts n elements whose keys are key(0) .. key(n-1).
+func populateKeys(self reflect.Value, ct *ctype, n int, key func(int) int) {
 	names := []string{"Put", "Add", "AddLast", "Put1"}
 	for _, name := range names {
 		m := self.MethodByName(name)
@@ -159,7 +164,7 @@ func populate(self reflect.Value, ct *ctype, n int) {
 		for i := 0; i < n; i++ {
 			func() {
 				defer func() { recover() }()
-				m.Call(callArgs(m, i, i+1, self, ct))
+				m.Call(callArgs(m, key(i), i+1, self, ct))
 			}()
 		}
 		return
